@@ -2,7 +2,7 @@
 // deterministic scheduler and prints the event log (format: ocaml/conc_main.ml) followed by
 //     monitor drain <v>*        the values still in the queue after the run, dequeued sequentially by main
 // usage: main <casefile>
-//   cfg = [variant]            variant numbers: see the table `variants` below (kept in sync with checks/C06.py)
+//   cfg = [moir; ic; hp; loop fuel; variant]   cfg[0..3] configure the Coq model, cfg[4] selects the real queue (see main)
 //   op  = "1 v"  enq v   -> events  inv_enq v ; ret_enq b
 //         "2"    deq     -> events  inv_deq   ; ret_deq b v      (v = 0 when b = 0)
 // Built several times with -DC06_GROUP=<g> (one executable per group of variants, compiled in parallel).
@@ -171,7 +171,7 @@ int main( int argc, char** argv )
         std::ifstream in( argv[1] );
         vcase::Case c;
         while ( vcase::read_case( in, c )) {
-            long variant = c.cfg.size() > 0 ? c.cfg[0] : 0;
+            long variant = c.cfg.size() > 4 ? c.cfg[4] : 0;     // cfg[0..3] are read by the model only
             switch ( variant ) {
 #if C06_GROUP == 0
             case 0: run_one< value_adapter< cc::MSQueue< cds::gc::HP, int > > >( c, true ); break;
